@@ -346,6 +346,107 @@ theorem doubleJac_eq (Q : JacPoint) :
   · exact Or.inl h0
   · right; simp only [h0, if_false, cast_emod hp, Int.cast_mul]; ring
 
+/-! ### `add_jac_aff` with both operands finite -/
+
+def affV (c : CurveGroup) (Q : JacPoint) (R : Point) : ℤ :=
+  (R.1 * (Q.2.2 * Q.2.2 % c.p) - Q.1) % c.p
+
+def affW (c : CurveGroup) (Q : JacPoint) (R : Point) : ℤ :=
+  (R.2 * (Q.2.2 * Q.2.2 % c.p * Q.2.2 % c.p) - Q.2.1) % c.p
+
+def affChord (c : CurveGroup) (Q : JacPoint) (R : Point) : JacPoint :=
+  let p := c.p
+  let M := Q.1
+  let T := Q.2.1
+  let V := affV c Q R
+  let W := affW c Q R
+  let V2 := V * V % p
+  let V3 := V2 * V % p
+  let MV2 := M * V2 % p
+  let X := (W * W - V3 - 2 * MV2) % p
+  let Y := (W * (MV2 - X) - T * V3) % p
+  let Z := V * Q.2.2 % p
+  (X, Y, Z)
+
+omit hp [Fact p.Prime] in
+theorem addJacAff_finite (c : CurveGroup) (Q : JacPoint) (R : Point) (hQ : Q.2.2 ≠ 0)
+    (hR : R.2 ≠ 0) :
+    addJacAff c Q R =
+      if affV c Q R = 0 then
+        (if affW c Q R = 0 then doubleJacHelper c Q (Q.2.2 * Q.2.2 % c.p) else INFJ)
+      else affChord c Q R := by
+  simp only [addJacAff, hQ, hR, if_false, ne_eq, not_false_eq_true, and_true]
+  rfl
+
+omit hp [Fact p.Prime] in
+theorem addJacAff_inf_inf (c : CurveGroup) (Q : JacPoint) (R : Point) (hQ : Q.2.2 = 0)
+    (hR : R.2 = 0) : addJacAff c Q R = INFJ := by
+  simp [addJacAff, hQ, hR]
+
+omit hp [Fact p.Prime] in
+theorem addJacAff_inf_left (c : CurveGroup) (Q : JacPoint) (R : Point) (hQ : Q.2.2 = 0)
+    (hR : R.2 ≠ 0) : addJacAff c Q R = (R.1, R.2, 1) := by
+  simp [addJacAff, hQ, hR]
+
+omit hp [Fact p.Prime] in
+theorem addJacAff_inf_right (c : CurveGroup) (Q : JacPoint) (R : Point) (hQ : Q.2.2 ≠ 0)
+    (hR : R.2 = 0) : addJacAff c Q R = Q := by
+  simp [addJacAff, hQ, hR]
+
+theorem affV_cast (Q : JacPoint) (R : Point) :
+    ((affV c Q R : ℤ) : ZMod p) = chordV (castJ p Q) (castJ p (R.1, R.2, 1)) := by
+  simp only [affV, chordV, castJ_0, castJ_2, cast_emod hp, Int.cast_sub, Int.cast_mul,
+    Int.cast_one]
+  ring
+
+theorem affW_cast (Q : JacPoint) (R : Point) :
+    ((affW c Q R : ℤ) : ZMod p) = chordW (castJ p Q) (castJ p (R.1, R.2, 1)) := by
+  simp only [affW, chordW, castJ_1, castJ_2, cast_emod hp, Int.cast_sub, Int.cast_mul,
+    Int.cast_one]
+  ring
+
+theorem affV_eq_zero_iff (Q : JacPoint) (R : Point) :
+    affV c Q R = 0 ↔ chordV (castJ p Q) (castJ p (R.1, R.2, 1)) = 0 := by
+  rw [← affV_cast hp]
+  constructor
+  · intro h; rw [h]; exact Int.cast_zero
+  · intro h; rw [affV] at h ⊢; exact emod_eq_zero_of_cast hp _ h
+
+theorem affW_eq_zero_iff (Q : JacPoint) (R : Point) :
+    affW c Q R = 0 ↔ chordW (castJ p Q) (castJ p (R.1, R.2, 1)) = 0 := by
+  rw [← affW_cast hp]
+  constructor
+  · intro h; rw [h]; exact Int.cast_zero
+  · intro h; rw [affW] at h ⊢; exact emod_eq_zero_of_cast hp _ h
+
+theorem affChord_cast (Q : JacPoint) (R : Point) :
+    castJ p (affChord c Q R) = chord (castJ p Q) (castJ p (R.1, R.2, 1)) := by
+  have h0 : ((affChord c Q R).1 : ZMod p) = chordX (castJ p Q) (castJ p (R.1, R.2, 1)) := by
+    simp only [affChord, chordX, cast_emod hp, Int.cast_sub, Int.cast_mul, Int.cast_ofNat,
+      affV_cast hp, affW_cast hp, castJ_0, castJ_2, Int.cast_one]
+    ring
+  have h1 : ((affChord c Q R).2.1 : ZMod p) = chordY (castJ p Q) (castJ p (R.1, R.2, 1)) := by
+    simp only [affChord, chordY, chordX, cast_emod hp, Int.cast_sub, Int.cast_mul,
+      Int.cast_ofNat, affV_cast hp, affW_cast hp, castJ_0, castJ_1, castJ_2, Int.cast_one]
+    ring
+  have h2 : ((affChord c Q R).2.2 : ZMod p) = chordZ (castJ p Q) (castJ p (R.1, R.2, 1)) := by
+    simp only [affChord, chordZ, cast_emod hp, Int.cast_mul, affV_cast hp, castJ_2, Int.cast_one,
+      mul_one]
+  rw [castJ, chord, h0, h1, h2]
+
+theorem affChord_Z_reduced (Q : JacPoint) (R : Point)
+    (h : ((affChord c Q R).2.2 : ZMod p) = 0) : (affChord c Q R).2.2 = 0 :=
+  emod_eq_zero_of_cast hp _ h
+
+/-! ### `negate_jac` -/
+
+theorem negateJac_cast (Q : JacPoint) :
+    castJ p (negateJac c Q) = ![castJ p Q 0, -castJ p Q 1, castJ p Q 2] := by
+  have h1 : (((c.p - Q.2.1) % c.p : ℤ) : ZMod p) = -(Q.2.1 : ZMod p) := by
+    rw [cast_emod hp, hp]; simp
+  rw [negateJac, castJ, h1]
+  rfl
+
 end Cast
 
 /-! ## Part 3: the refinement theorems -/
@@ -446,6 +547,60 @@ theorem addJac_refines (Q R : JacPoint) (hQ : JValid p c Q) (hR : JValid p c R) 
 theorem addJac_valid (Q R : JacPoint) (hQ : JValid p c Q) (hR : JValid p c R) :
     JValid p c (addJac c Q R) :=
   (addJac_spec hp Q R hQ hR).1
+
+/-- T1c: `double_jac` computes `Q + Q`, whichever of the three spellings of `a·Z⁴` the curve selects
+(`a = 0`, `a = p - 3`, general: the selection is inside `doubleJacHelper`, mirrored from the code). -/
+theorem doubleJacHelper_spec (Q : JacPoint) (QZ2 : ℤ)
+    (hz : c.a = 0 ∨ (QZ2 : ZMod p) = (Q.2.2 : ZMod p) ^ 2) (hQ : JValid p c Q) :
+    JValid p c (doubleJacHelper c Q QZ2) ∧
+      absJ p c (doubleJacHelper c Q QZ2) = absJ p c Q + absJ p c Q := by
+  have hc := doubleJacHelper_cast hp Q QZ2 hz
+  by_cases hQz : Q.2.2 = 0
+  · have hz0 : (doubleJacHelper c Q QZ2).2.2 = 0 := by
+      apply doubleJacHelper_Z_reduced hp
+      have : castJ p (doubleJacHelper c Q QZ2) 2 = 0 := by
+        rw [hc]; simp [dbl, dblZ, hQz]
+      exact this
+    rw [absJ_of_Z_eq_zero hz0, absJ_of_Z_eq_zero hQz, add_zero]
+    exact ⟨JValid_of_Z_eq_zero hz0, rfl⟩
+  · obtain ⟨hn, ha⟩ := dbl_spec (hQ.2 hQz)
+    refine ⟨⟨doubleJacHelper_Z_reduced hp _ _, fun _ => ?_⟩, ?_⟩
+    · rw [hc]; exact hn
+    · rw [absJ, hc]; exact ha
+
+theorem doubleJac_spec (Q : JacPoint) (hQ : JValid p c Q) :
+    JValid p c (doubleJac c Q) ∧ absJ p c (doubleJac c Q) = absJ p c Q + absJ p c Q := by
+  rw [doubleJac]
+  apply doubleJacHelper_spec hp _ _ _ hQ
+  by_cases h0 : c.a = 0
+  · exact Or.inl h0
+  · right; simp only [h0, if_false, cast_emod hp, Int.cast_mul]; ring
+
+theorem doubleJac_refines (Q : JacPoint) (hQ : JValid p c Q) :
+    absJ p c (doubleJac c Q) = absJ p c Q + absJ p c Q := (doubleJac_spec hp Q hQ).2
+
+theorem doubleJac_valid (Q : JacPoint) (hQ : JValid p c Q) : JValid p c (doubleJac c Q) :=
+  (doubleJac_spec hp Q hQ).1
+
+/-- T1d: `negate_jac` computes the inverse. -/
+theorem negateJac_spec (Q : JacPoint) (hQ : JValid p c Q) :
+    JValid p c (negateJac c Q) ∧ absJ p c (negateJac c Q) = -absJ p c Q := by
+  have hc := negateJac_cast hp Q
+  have hz : (negateJac c Q).2.2 = Q.2.2 := rfl
+  by_cases hQz : Q.2.2 = 0
+  · rw [absJ_of_Z_eq_zero (hz.trans hQz), absJ_of_Z_eq_zero hQz, neg_zero]
+    exact ⟨JValid_of_Z_eq_zero (hz.trans hQz), rfl⟩
+  · obtain ⟨hn, ha⟩ := neg_spec (hQ.2 hQz)
+    refine ⟨⟨fun h => ?_, fun _ => ?_⟩, ?_⟩
+    · rw [hz] at h ⊢; exact hQ.1 h
+    · rw [hc]; exact hn
+    · rw [absJ, hc]; exact ha
+
+theorem negateJac_refines (Q : JacPoint) (hQ : JValid p c Q) :
+    absJ p c (negateJac c Q) = -absJ p c Q := (negateJac_spec hp Q hQ).2
+
+theorem negateJac_valid (Q : JacPoint) (hQ : JValid p c Q) : JValid p c (negateJac c Q) :=
+  (negateJac_spec hp Q hQ).1
 
 end Refine
 
